@@ -1,3 +1,4 @@
+import Model.Num
 import Model.Rainflow.Turns
 import Model.Rainflow.Detectors
 import Model.Rainflow.Spec
